@@ -594,6 +594,66 @@ pub fn attempt_in_between_family() -> Vec<Value> {
     cases
 }
 
+/// A changeset prepared by a session on a chain of uncommitted overlays and committed DIRECTLY
+/// (FinishedSession::commit) after the chain was committed — with, in between, nothing / a commit /
+/// a commit that is rolled back again (same root, physically different page table when the commit
+/// crossed the page-elision boundary) / a rollback of the chain itself. From a 19-key cluster right
+/// below the elision threshold, so that overlay, prepared changeset or the commit in between creates
+/// the cluster's page.
+pub fn prepared_on_overlay_family() -> Vec<Value> {
+    let mut cases = vec![];
+    let mut cfg = rb_cfg(3, 0);
+    cfg.buckets = 64;
+    let uni = vec!["CL12:17-23"];
+    let batches: Vec<Vec<Value>> = vec![vec![w(0, 5)], vec![w(2, 1)], vec![del(0)], vec![w(2, 1), w(3, 1)]];
+    let betweens: Vec<Vec<Value>> = vec![
+        vec![],
+        vec![c(vec![w(4, 1)]), json!({"rb": 1})],
+        vec![c(vec![w(4, 1), w(5, 1)]), json!({"rb": 1})],
+        vec![c(vec![del(1)]), json!({"rb": 1})],
+        vec![c(vec![w(4, 1)])],
+        vec![json!({"rb": 1})],
+        vec![json!({"rb": 1}), c(vec![w(4, 1)])],
+    ];
+    for a in &batches {
+        for x in &batches {
+            for (bi, between) in betweens.iter().enumerate() {
+                for fc in ["fc", "fcn"] {
+                    if fc == "fcn" && bi > 2 {
+                        continue;
+                    }
+                    let mut ops = vec![json!({"ov": {"id": 0, "on": [], "b": a}}), json!({"prep": {"id": 0, "on": [0], "b": x}}), json!({"ovc": 0})];
+                    ops.extend(between.iter().cloned());
+                    ops.push(json!({fc: 0}));
+                    ops.push(c(vec![w(5, 3), del(2)]));
+                    ops.push(json!({"reopen": {}}));
+                    ops.push(c(vec![w(2, 2)]));
+                    ops.push(json!({"rb": 1}));
+                    cases.push(case("cl12x19", uni.clone(), &cfg, "all", ops, 4, true));
+                }
+            }
+        }
+    }
+    // two-level chain: prepared on [B, A]; A and B committed in order; the same in-betweens
+    for (bi, between) in betweens.iter().enumerate().take(4) {
+        let _ = bi;
+        let mut ops = vec![
+            json!({"ov": {"id": 0, "on": [], "b": [w(0, 5)]}}),
+            json!({"ov": {"id": 1, "on": [0], "b": [w(2, 1)]}}),
+            json!({"prep": {"id": 0, "on": [1, 0], "b": [w(3, 1)]}}),
+            json!({"ovc": 0}),
+            json!({"ovc": 1}),
+        ];
+        ops.extend(between.iter().cloned());
+        ops.push(json!({"fc": 0}));
+        ops.push(c(vec![w(5, 3), del(2)]));
+        ops.push(json!({"reopen": {}}));
+        ops.push(c(vec![w(2, 2)]));
+        cases.push(case("cl12x19", uni.clone(), &cfg, "all", ops, 4, true));
+    }
+    cases
+}
+
 pub fn plan_c12(thorough: bool) -> Plan {
     let mut cases = vec![];
     for (seed, uni, batches) in [
@@ -657,6 +717,7 @@ pub fn plan_c12(thorough: bool) -> Plan {
         cases.push(case("empty", vec!["U4"], &cfg, "noproof", vec![c(vec![w(0, 1)]), json!({"hold": 0}), json!({"cn": [w(1, 1)]}), json!({"release": 0}), json!({"rb": 1})], 3, true));
     }
     cases.extend(attempt_in_between_family());
+    cases.extend(prepared_on_overlay_family());
     sort_by_bound(&mut cases);
     let mut p = Plan::new(
         cases,
